@@ -9,3 +9,5 @@ import Xrfmv.Props.C02
 #print axioms Xrfmv.Props.C02.ridge_exists_unique_laplace
 #print axioms Xrfmv.Props.C02.ridge_exists_unique_product
 #print axioms Xrfmv.Props.C02.ridge_exists_unique_sumPower
+#print axioms Xrfmv.Props.C02.ridge_matrix_posDef
+#print axioms Xrfmv.Props.C02.ridge_matrix_posDef_lpq
